@@ -44,6 +44,10 @@ func (f *Return) Call(s *slip.Scope, args slip.List, depth int) slip.Object {
 	}
 	if 0 < len(args) {
 		rr.Result = slip.EvalArg(s, args, 0, depth+1)
+		if _, ok := rr.Result.(slip.NonLocalExit); ok {
+			// Control left while the value was being evaluated.
+			return rr.Result
+		}
 	}
 	return &rr
 }
